@@ -3,6 +3,7 @@ class-based view method), registers it with the designated context mode, dispatc
 records what the body observed.  Also records a DIRECT call on a function with the effective signature
 (spec sanity, DESIGN 3.2).   usage: binding.py SCENARIOS.json TRACES.json"""
 import asyncio
+import inspect
 import json
 import logging
 import sys
@@ -27,6 +28,7 @@ def to_concrete(scn):
     for p in c['sig']:
         p['name'] = CONC[p['name']]
     c['ctx']['name'] = CONC[c['ctx']['name']]
+    c['ctx']['xname'] = CONC[c['ctx']['xname']]
     c['inp']['keys'] = {CONC[k]: v for k, v in c['inp']['keys'].items()}
     return c
 
@@ -190,7 +192,7 @@ def run(ascn, loop):
     else:
         params = {k: 'n_' + k for k in KEYS if inp['keys'][k]}
     # ---- spec sanity: direct call on the effective signature
-    eff = [p for p in sig if not (ctx['mode'] in ('byname', 'positional', 'excl') and p['name'] == ctx['name'])]
+    eff = [p for p in sig if not ((ctx['mode'] in ('byname', 'positional') and p['name'] == ctx['name']) or p['name'] == ctx['xname'])]
     box = {}
 
     def dlog(loc, self_):
@@ -222,7 +224,9 @@ def run(ascn, loop):
         return RET
 
     _CURRENT['log'] = log
-    pred = (lambda name, ann, default: name == ctx['name']) if ctx['mode'] == 'excl' else None
+    # the exclusion predicate looks at everything it is given: an unannotated parameter of that name carrying the marker default
+    pred = (lambda name, ann, default: name == ctx['xname'] and ann is inspect.Parameter.empty and default == DEFAULT) \
+        if ctx['xname'] != 'na' else None
     is_async = flavour == 'coro'
     disp = AsyncDispatcher() if is_async else Dispatcher()
     target = disp.registry if scn['route'] == 'direct' else MethodRegistry()
@@ -244,7 +248,7 @@ def run(ascn, loop):
         m, src = make(sig, flavour, cached=pred is None)
         if pred:
             m = validators.BaseValidator(exclude_param=pred).validate(m)
-        if ctx['mode'] in ('none', 'excl'):
+        if ctx['mode'] == 'none':
             target.add(m, 'm')
         else:
             target.add(m, 'm', context=ctx['name'], positional=ctx['mode'] == 'positional')
